@@ -314,7 +314,7 @@ func (p *pki) certUsable(chain [][]byte, now time.Time) bool {
 type keySet struct {
 	Name   string      `json:"name"`
 	Keys   []*keyEntry `json:"keys"`
-	Mode   string      `json:"mode"` // ok | http500 | garbage
+	Mode   string      `json:"mode"` // ok | http500 | garbage | http404
 	doc    []byte
 	usable bool
 }
